@@ -32,8 +32,9 @@ type Violation struct {
 }
 
 type Sample struct {
-	Label string            `json:"label"`
-	Model map[string]string `json:"model"`
+	Label   string            `json:"label"`
+	Model   map[string]string `json:"model"`
+	Choices []int             `json:"choices"`
 }
 
 // HarnessResult aggregates the exploration of one harness function.
